@@ -10,7 +10,7 @@ PROPS = {
                       "modelled, not verified: protobuf marshalling of the payload and snappy (abstract codec with the two inverse laws as hypotheses of roundtrip; the harness runs the real proto.Marshal/Unmarshal and snappy on every generated message), hash/crc32 (the bit-serial Lean CRC-32 is compared with it on every run), the double SHA-256 of MessageKey (assumed injective), go-cache (a key is present until its expiry time), Go's sync primitives and memory model"],
         assumptions=["unmarshal (marshal a) = a and decompress (compress b) = b for the payload codec (protobuf, snappy)",
                      "the de-duplication cache is modelled on a logical millisecond clock (3000 ms window); the harness checks it against the real wall-clock cache with ticks of 1.2 s / 3.4 s",
-                     "concurrency: the lock discipline of the subscriber table is established lexically (every access to d.mc lies between mu.Lock/RLock and its release, regenerated from dispatcher.go on every run) and by a concurrent stress run; the Go scheduler and memory model themselves are not modelled"],
+                     "concurrency: the lock discipline of the subscriber table is established lexically (every access to d.mc lies between mu.Lock/RLock and its release, regenerated from dispatcher.go on every run) by a concurrent stress run, and by deterministic interleavings of a Register / UnRegister started from inside a Dispatch's walk over the subscribers (op dmut; model side dispatch_mutation_in_flight: in either order every other subscriber's target count is unchanged); the Go scheduler and memory model themselves are not modelled"],
     ),
 }
 
